@@ -19,6 +19,7 @@ use crate::annotationstore::AnnotationStore;
 use crate::api::*;
 use crate::error::StamError;
 use crate::store::*;
+use crate::types::Handle;
 use crate::AnnotationDataSet;
 
 use base16ct;
@@ -129,6 +130,15 @@ impl AnnotationStore {
                 // we need to update the reverse index manually:
                 self.dataset_data_annotation_map
                     .insert(set_handle, data_handle, handle);
+                // the data may already be in use by a later annotation: keep the index chronological
+                if let Some(annotations) = self
+                    .dataset_data_annotation_map
+                    .data
+                    .get_mut(set_handle.as_usize())
+                    .and_then(|map| map.data.get_mut(data_handle.as_usize()))
+                {
+                    annotations.sort_unstable();
+                }
             }
             for (handle, text) in queue_texts {
                 let set: &mut AnnotationDataSet = self.get_mut(set_handle)?;
@@ -138,6 +148,15 @@ impl AnnotationStore {
                 // we need to update the reverse index manually:
                 self.dataset_data_annotation_map
                     .insert(set_handle, data_handle, handle);
+                // the data may already be in use by a later annotation: keep the index chronological
+                if let Some(annotations) = self
+                    .dataset_data_annotation_map
+                    .data
+                    .get_mut(set_handle.as_usize())
+                    .and_then(|map| map.data.get_mut(data_handle.as_usize()))
+                {
+                    annotations.sort_unstable();
+                }
             }
         } else {
             panic!("Set must exist");
